@@ -117,7 +117,7 @@ BYTES_OPS = {'CAT', 'SLICE', 'SER', 'SER_SIGNED', 'HMAC512', 'HMAC', 'SHA256', '
 STR_OPS = {'NORM', 'HEX', 'B58ENC', 'BECH32', 'FORMAT', 'STR', 'DECODE', 'JOIN', 'UPPER', 'STRIP', 'BIN', 'ZFILL',
            'STRCAT', 'JSON', 'LOWER'}
 INT_OPS = {'INT', 'INT_SIGNED', 'ADD', 'SUB', 'MUL', 'MOD', 'FLOORDIV', 'POW', 'LEN', 'SK_ADD_INT', 'INTCAST', 'RANDBITS',
-           'LSHIFT', 'RSHIFT', 'BITAND', 'BITOR', 'BITXOR', 'NEG', 'ORD', 'INT2', 'FIND', 'RFIND', 'INDEX', 'COUNT', 'LEADRUN'}
+           'LSHIFT', 'RSHIFT', 'BITAND', 'BITOR', 'BITXOR', 'NEG', 'ORD', 'INT2', 'FIND', 'RFIND', 'INDEX', 'COUNT', 'LEADRUN', 'PX', 'PY'}
 BOOL_OPS = {'LT', 'EQ', 'NOT', 'AND', 'OR', 'IN', 'IS', 'ISINSTANCE', 'BOOL', 'VALID_SK', 'LE', 'ALL', 'ANY'}
 POINT_OPS = {'PT', 'PT_ADD', 'PARSE_PT', 'PARSE_PT_UNVALIDATED'}
 
@@ -550,6 +550,8 @@ def getitem(t, idx):
         for k, v in reversed(t[1]):
             out = phi(eq(idx, k), v, out)
         return out
+    if is_const(idx) and idx[1] in (0, -1) and type(idx[1]) is int and is_op(t, 'SER') and t[3] == const(1):
+        return t[2]           # the one byte of a one-byte serialisation is the number (valid whenever SER did not raise)
     if is_const(idx):
         i = idx[1]
         if tag(t) in ('list', 'tuple') and isinstance(i, int):
